@@ -86,6 +86,30 @@ def dup_checksum_cases(f):
     return out
 
 
+def int_ok(text):
+    try:
+        int(text)
+        return True
+    except ValueError:
+        return False
+
+
+def frame_fields(raw):
+    """(tag, value) text pairs of the first frame region of raw (marker .. next marker), as the decoder splits them"""
+    i = raw.find(b"8=FIX.")
+    if i < 0:
+        return []
+    msg = raw[i:].decode("latin-1")
+    j = msg[5:].find("8=FIX.")
+    msg = msg[: j + 5] if j != -1 else msg
+    out = []
+    for f in msg.split("\x01"):
+        if "=" in f:
+            t, v = f.split("=", 1)
+            out.append((t, v))
+    return out
+
+
 def bodylength_value(raw):
     m = re.match(rb"8=FIX\.[^\x01]*\x019=([^\x01]*)\x01", raw[raw.find(b"8=FIX."):] if b"8=FIX." in raw else b"")
     return m.group(1) if m else None
@@ -94,7 +118,14 @@ def bodylength_value(raw):
 def classify_decode(raw, res):
     """known-finding class of an oracle breach of decode(raw) = res"""
     if res[0] == 1:
-        return {5: "D7-raises-ValueError", 4: "D7-raises-FIXMessageError", 6: "D7-raises-AttributeError"}.get(res[1])
+        # the classes are the inputs the ledger names, decided here from the bytes alone (Python's int() on latin-1 text):
+        # ValueError = a BodyLength / CheckSum value int() refuses; FIXMessageError = a field tag int() refuses
+        fields = frame_fields(raw)
+        if res[1] == 5:
+            return "D7-raises-ValueError" if any(t in ("9", "10") and not int_ok(v) for t, v in fields) else None
+        if res[1] == 4:
+            return "D7-raises-FIXMessageError" if any(not int_ok(t) for t, v in fields) else None
+        return {6: "D7-raises-AttributeError"}.get(res[1])
     n = res[2]
     if n < 0:
         bl = bodylength_value(raw)
